@@ -1,6 +1,6 @@
 (* C12 property theorems: ONLY statements closed by `exact`, each followed by Print Assumptions. *)
 From Coq Require Import List Ascii ZArith NArith Bool Sorted.
-From DuneV Require Import Params_gen C12_Model C12_Spec C12_Proofs C12_Proofs_Int C12_Proofs_Tree C12_Proofs_Lex C12_Proofs_Frame C12_Proofs_Opt C12_Proofs_Order C12_Proofs_Api C12_Proofs_Seq C12_Proofs_Report C12_Proofs_Dbl C12_Proofs_Hash.
+From DuneV Require Import Params_gen C12_Model C12_Spec C12_Proofs C12_Proofs_Int C12_Proofs_Tree C12_Proofs_Lex C12_Proofs_Frame C12_Proofs_Opt C12_Proofs_Order C12_Proofs_Api C12_Proofs_Seq C12_Proofs_Report C12_Proofs_Dbl C12_Proofs_Hash C12_Proofs_Argc.
 Import ListNotations.
 Local Open Scope char_scope.
 
@@ -448,3 +448,69 @@ Theorem C12_subtree_as_receiver : forall S p t (f : c12_tree -> c12_tree * S) er
   snd (c12_in_sub t p f err) = snd (f (c12_node (fst (c12_sub_mut t p)) p)).
 Proof. exact c12_in_sub_node. Qed.
 Print Assumptions C12_subtree_as_receiver.
+
+(* ------------------------------------------------------------------ dimension audit 2 *)
+
+(* readOptions(argc, argv, pt) with the count made explicit (c12_read_options_n n argv: n = argc-1 counted arguments,
+   argv = the entries up to the first NULL).  Under the C calling convention (argv[argc] == NULL) it is the
+   function all other readOptions theorems speak about: for ALL argument vectors and trees *)
+Theorem C12_options_argc_terminated : forall args pt,
+  c12_read_options_n (length args) args pt = c12_read_options args pt.
+Proof. exact c12_read_options_n_terminated. Qed.
+Print Assumptions C12_options_argc_terminated.
+
+(* an argv ARRAY LONGER THAN argc (any further entries `extra` behind the count): they are not looked at -- the
+   result is that of the counted arguments alone -- unless the last counted argument is an option that lacks its
+   value (c12_opts_dangling: the scan of C12_options_all_argv ends in an option) *)
+Theorem C12_options_argc_oversized : forall args extra pt,
+  c12_opts_dangling args = false ->
+  c12_read_options_n (length args) (args ++ extra) pt = c12_read_options args pt.
+Proof. exact c12_read_options_n_oversized. Qed.
+Print Assumptions C12_options_argc_oversized.
+
+Example C12_options_argc_oversized_nonvacuous :
+  c12_opts_dangling [["-"; "a"]; ["1"]; ["x"]] = false /\
+  c12_read_options_n 3 ([["-"; "a"]; ["1"]; ["x"]] ++ [["-"; "z"]; ["E"]]) c12_empty = (C12Node [(["a"], ["1"])] [], C12Ok).
+Proof. vm_compute. split; reflexivity. Qed.
+
+(* The excluded case is real in the code as it is (missing-value test  argv[i+1] == NULL  instead of  i+1 < argc):
+   with one counted argument "-a" and a further entry behind the count, the entry is stored as the value of a
+   instead of RangeError "last option on command line does not have an argument".  Whether an argument vector with
+   argv[argc] != NULL belongs to the property's domain is left open (see mutants/C12/API_COVERAGE.md). *)
+Example C12_options_argc_dangling_reads_behind_count :
+  c12_opts_dangling [["-"; "a"]] = true /\
+  c12_read_options [["-"; "a"]] c12_empty = (c12_empty, C12RangeError) /\
+  c12_read_options_n 1 ([["-"; "a"]] ++ [["E"; "X"]]) c12_empty = (C12Node [(["a"], ["E"; "X"])] [], C12Ok).
+Proof. vm_compute. repeat split; reflexivity. Qed.
+
+(* with at least argc entries in the array the count is never overrun *)
+Theorem C12_options_argc_total : forall n argv pt, n <= length argv ->
+  snd (c12_read_options_n n argv pt) <> C12OutOfFuel.
+Proof. exact c12_read_options_n_no_fuel. Qed.
+Print Assumptions C12_options_argc_total.
+
+(* ASSIGNMENT ONTO A TREE THAT HOLDS CONTENT (operator= by copy and swap, c12_tree_assign): for ALL previous contents
+   of the target and ALL sources -- a subtree of the target and a tree containing the target included, the copy is
+   taken first -- the target afterwards IS the source: every hasKey / hasSub / operator[] / report() / key list
+   answers as the source does, nothing of the previous content survives; the previous content is what is destroyed *)
+Theorem C12_assign_onto_content : forall target src p pfx,
+  let t' := fst (c12_tree_assign target src) in
+  c12_has_key t' p = c12_has_key src p /\ c12_has_sub t' p = c12_has_sub src p /\
+  c12_lookup t' p = c12_lookup src p /\ c12_report_lines t' pfx = c12_report_lines src pfx /\
+  c12_vals t' = c12_vals src /\ c12_subs t' = c12_subs src.
+Proof. exact c12_tree_assign_observations. Qed.
+Print Assumptions C12_assign_onto_content.
+
+Theorem C12_assign_swaps : forall target src,
+  fst (c12_tree_assign target src) = src /\ snd (c12_tree_assign target src) = target.
+Proof. exact c12_tree_assign_replaces. Qed.
+Print Assumptions C12_assign_swaps.
+
+Example C12_assign_onto_content_nonvacuous :
+  let target := C12Node [(["j"], ["1"]); (["a"], ["o"])] [(["o"], C12Node [(["k"], ["2"])] [])] in
+  let src := C12Node [(["a"], ["n"])] [(["g"], C12Node [(["k"], ["v"])] [])] in
+  c12_has_key target [["j"]] = Some true /\ c12_has_key (fst (c12_tree_assign target src)) [["j"]] = Some false /\
+  c12_has_sub (fst (c12_tree_assign target src)) [["o"]] = Some false /\
+  c12_lookup (fst (c12_tree_assign target src)) [["a"]] = Some ["n"] /\
+  c12_lookup (fst (c12_tree_assign target (C12Node [(["k"], ["2"])] []))) [["k"]] = Some ["2"].
+Proof. vm_compute. repeat split; reflexivity. Qed.
